@@ -67,3 +67,10 @@ CLAIMS['C18'] = dict(
           'at query time comparison and probe use the keyed hash (shared with C05); loading is guarded by load_expired or now <= expiry, deletion by expiry + grace <= now; register_shards is fed only '
           'from validity-filtered lists or freshly written files. All-paths facts over every shard content and flag combination. Equality of answers with the original shard\'s and the time arithmetic are not decided.'),
     note='Trusted: DataHash::hmac is the keyed hash.')
+CLAIMS['C15'] = dict(
+    technique='static analysis: loop-relative edge dominance of canonicalised limit comparisons with delta/operand identity, who-may-call, evaluated constants',
+    text=('Decides check-then-act for both xorb limits at both accumulation sites: a chunk is appended (and its size added) only through the not-exceeding edge of the check made with '
+          'exactly the delta applied, or after cut_new_xorb, which resets both; the session aggregate is merged only under both summed limits; an empty xorb never reaches put; file records reach '
+          'the shard only via DataAggregator::finalize, which patches every pending segment with the xorb hash; chunk-size constants fit the 3-byte fields and header validation bounds both lengths. '
+          'All-paths facts for every input and limit configuration. That each chunk is itself <= the maximum chunk size is C04 arithmetic and not decided.'),
+    note='A stricter check (>= instead of >) is accepted.')
